@@ -11,6 +11,7 @@ package main
 
 import (
 	"fmt"
+	"regexp"
 	"strings"
 	"sync/atomic"
 	"unsafe"
@@ -34,6 +35,9 @@ type Case struct {
 }
 
 type fail struct{ sig, what string }
+
+// an index at or beyond the fixed operand stack (frames reserve NumLocals slots at once, so the index can exceed StackSize)
+var stackExhausted = regexp.MustCompile(fmt.Sprintf(`index out of range \[\d+\] with length %d$`, tengo.StackSize))
 
 var numBuiltins = len(tengo.GetAllBuiltinFunctions())
 
@@ -165,7 +169,7 @@ func runCase(c Case, st *stats) (fails []fail, obs string) {
 		case "panic":
 			// exhausting the fixed operand stack (StackSize slots) by deep non-tail recursion is a
 			// resource limit (C05/C06), not a malformed instruction stream
-			if strings.Contains(tg.FirstLine(run.ErrText), fmt.Sprintf("index out of range [%d] with length %d", tengo.StackSize, tengo.StackSize)) {
+			if stackExhausted.MatchString(tg.FirstLine(run.ErrText)) {
 				classes += "(stack-exhausted)"
 			} else {
 				add("dynamic/panic", tg.FirstLine(run.ErrText))
